@@ -265,3 +265,13 @@ Theorem C15_layout_constants :
   x_kr_max_name_size = 128%N /\ x_noise_set_nonce_assert_max = 1%N.
 Proof. repeat split; reflexivity. Qed.
 Print Assumptions C15_layout_constants.
+
+(* slice bounds and lengths used by unlock_private_key / EncodedPk::try_from / decode_public_key in the CURRENT sources
+   (the model hard-codes the documented layout; the translator re-extracts the literals on every run) *)
+Theorem C15_slice_constants :
+  x_kr_unlock_version_end = 4%N /\ x_kr_unlock_salt_lo = 4%N /\ x_kr_unlock_salt_hi = 36%N /\
+  x_kr_unlock_ct_lo = 36%N /\ x_kr_unlock_ct_hi = 84%N /\ x_kr_unlock_ct_hi = x_kr_private_key_ct_len /\
+  x_kr_encoded_pk_try_len = 36%N /\ x_kr_encoded_pk_try_len = x_kr_encoded_pk_len /\
+  x_kr_decode_pk_end = 32%N /\ x_kr_decode_ck_start = 32%N /\ x_kr_checksum_len = 4%N.
+Proof. repeat split; reflexivity. Qed.
+Print Assumptions C15_slice_constants.
